@@ -54,16 +54,14 @@ SameBag(S, T) ==
        /\ (Cardinality(ss) = Len(S) \/ ToBag(gs) = ToBag(gt))
 SameSet(S, T) == ToSet(Geo(S)) = ToSet(Geo(T))
 
-\* point in the closed / open triangle (orientation tests)
-InClosed(p, t) ==
-    LET s == Sgn(Cross(t[1], t[2], t[3]))
-    IN /\ s # 0
-       /\ s * Cross(t[1], t[2], p) >= 0 /\ s * Cross(t[2], t[3], p) >= 0 /\ s * Cross(t[3], t[1], p) >= 0
-InOpen(p, t) ==
-    LET s == Sgn(Cross(t[1], t[2], t[3]))
-    IN /\ s # 0
-       /\ s * Cross(t[1], t[2], p) > 0 /\ s * Cross(t[2], t[3], p) > 0 /\ s * Cross(t[3], t[1], p) > 0
-TriInside(g, t) == \A v \in VSet(g) : InClosed(v, t)
+\* point in the closed / open triangle (orientation tests; s is the orientation of t)
+InClosedS(p, t, s) == s * Cross(t[1], t[2], p) >= 0 /\ s * Cross(t[2], t[3], p) >= 0 /\ s * Cross(t[3], t[1], p) >= 0
+InOpenS(p, t, s) == s * Cross(t[1], t[2], p) > 0 /\ s * Cross(t[2], t[3], p) > 0 /\ s * Cross(t[3], t[1], p) > 0
+InClosed(p, t) == LET s == Sgn(Cross(t[1], t[2], t[3])) IN s # 0 /\ InClosedS(p, t, s)
+InOpen(p, t) == LET s == Sgn(Cross(t[1], t[2], t[3])) IN s # 0 /\ InOpenS(p, t, s)
+\* every vertex of g lies in the closed triangle t
+TriInside(g, t) == LET s == Sgn(Cross(t[1], t[2], t[3]))
+                   IN s # 0 /\ InClosedS(g[1], t, s) /\ InClosedS(g[2], t, s) /\ InClosedS(g[3], t, s)
 
 \* two non-degenerate triangles have disjoint interiors iff the line through an edge of one of them separates them
 Separates(a, b, o, g) == LET so == Sgn(Cross(a, b, o)) IN \A v \in VSet(g) : Sgn(Cross(a, b, v)) * so <= 0
